@@ -17,7 +17,7 @@ Qed.
 
 (** the engine knows every function the emitted text calls *)
 Lemma known_wrap w e : known (wrap w e) = known e.
-Proof. unfold wrap. destruct (w && is_open e); reflexivity. Qed.
+Proof. unfold wrap. destruct w; try destruct (is_open e); try destruct (is_open_conn e); reflexivity. Qed.
 Lemma known_mkbin bf x y : known x = true -> known y = true -> known (mkbin bf x y) = true.
 Proof.
   intros A B. unfold mkbin. destruct (bf_paren bf), (bf_self_left bf); cbn [known]; rewrite !known_wrap, A, B; reflexivity.
@@ -63,7 +63,7 @@ End WithCfg.
 (** trees a Python program can write: a reflected form exists only for arithmetic, & and | *)
 Fixpoint uwf (t : uexpr) : bool :=
   match t with
-  | UCol _ | ULit _ | UPy _ => true
+  | UCol _ | ULit _ | UPy _ | UExpr _ => true
   | UBin _ a b | UNse a b | UStartsWith a b | UEndsWith a b | UGetItemCol a b => uwf a && uwf b
   | URBin o _ a => has_reflected o && uwf a
   | UNeg a | UNot a | UIsNull a | UIsNotNull a | UIsin a _ | ULike a _ | UILike a _
